@@ -2419,7 +2419,7 @@ let ai_term = function
 
 type ('vS, 'vr) psol = { next_gidx : nat; level : nat;
                          assignments : (pkg0 * ('vS, 'vr) pa) list;
-                         queue : (pkg0 * z) list; changed : nat;
+                         queue : (pkg0 * (z * 'vS)) list; changed : nat;
                          backtracked : bool }
 
 (** val ps_empty : ('a1, 'a2) psol **)
@@ -2592,12 +2592,14 @@ let pick_candidates ps0 =
              | Neg _ -> []))
     else []) (skipn ps0.changed ps0.assignments)
 
-(** val queue_max : (pkg0 * z) list -> z option **)
+(** val queue_max : (pkg0 * (z * 'a1)) list -> z option **)
 
 let queue_max = function
 | [] -> None
 | p :: r ->
-  let (_, z0) = p in Some (fold_left (fun m pz -> Z.max m (snd pz)) r z0)
+  let (_, p1) = p in
+  let (z0, _) = p1 in
+  Some (fold_left (fun m pz -> Z.max m (fst (snd pz))) r z0)
 
 (** val drop_while_gt : nat -> 'a1 dated list -> 'a1 dated list **)
 
@@ -3160,9 +3162,9 @@ type ('vS, 'vr) outcome =
 | OPickNotMax of nat * pkg0
 
 (** val do_prioritize :
-    ('a1, 'a2) vSOps -> (pkg0 * 'a1) list -> (pkg0 * z) list -> ('a1, 'a2)
-    event list -> nat -> (((pkg0 * z) list * ('a1, 'a2) event list) * nat,
-    ('a1, 'a2) outcome) sum **)
+    ('a1, 'a2) vSOps -> (pkg0 * 'a1) list -> (pkg0 * (z * 'a1)) list -> ('a1,
+    'a2) event list -> nat -> (((pkg0 * (z * 'a1)) list * ('a1, 'a2) event
+    list) * nat, ('a1, 'a2) outcome) sum **)
 
 let rec do_prioritize o cands q tr n0 =
   match cands with
@@ -3175,7 +3177,7 @@ let rec do_prioritize o cands q tr n0 =
        (match e with
         | EvPrioritize (p', s', prio) ->
           if (&&) (N.eqb p p') (o.vs_eqb s s')
-          then do_prioritize o r (set p prio q) tr' (S n0)
+          then do_prioritize o r (set p (prio, s) q) tr' (S n0)
           else Inr (OMismatch (n0, (Npos XH)))
         | _ -> Inr (OMismatch (n0, (Npos XH)))))
 
@@ -3196,7 +3198,7 @@ let extract_solution p =
 let added_has veqb0 added p v =
   existsb (fun e -> (&&) (N.eqb (fst e) p) (veqb0 (snd e) v)) added
 
-type 'vS pick_info = ((pkg0 * 'vS) list * (pkg0 * z) list) * nat
+type 'vS pick_info = ((pkg0 * 'vS) list * (pkg0 * (z * 'vS)) list) * nat
 
 (** val undecided_positive : ('a1, 'a2) psol -> (pkg0 * 'a1) list **)
 
@@ -3266,7 +3268,8 @@ let rec resolve_loop o veqb0 fuel st next added tr n0 log =
                               (match e0 with
                                | EvChoose (p2, s, ans) ->
                                  (match get p2 q with
-                                  | Some prio ->
+                                  | Some p3 ->
+                                    let (prio, _) = p3 in
                                     if negb (Z.eqb prio mx)
                                     then ((((OPickNotMax (n2, p2)), st1),
                                            log1), n2)
